@@ -13,6 +13,8 @@ pub enum Call {
     Final(u32),
     /// an intermediate build() on the same builder (result discarded); the calls that follow extend the builder
     Build,
+    /// the same with build_unchecked() (which may panic on a specification that is not yet complete; the caller survives it)
+    BuildUnchecked,
 }
 
 #[derive(Clone, Debug)]
@@ -53,6 +55,9 @@ impl Spec {
                 Call::Build => {
                     let _ = writeln!(o, "b");
                 }
+                Call::BuildUnchecked => {
+                    let _ = writeln!(o, "u");
+                }
             }
         }
         o
@@ -74,6 +79,7 @@ impl Spec {
                 ("d", 3) => calls.push(Call::Default(d(tk[1])?, d(tk[2])?)),
                 ("f", 2) => calls.push(Call::Final(d(tk[1])?)),
                 ("b", 1) => calls.push(Call::Build),
+                ("u", 1) => calls.push(Call::BuildUnchecked),
                 _ => return Err(format!("bad line {}", line)),
             }
         }
@@ -117,7 +123,7 @@ impl Spec {
                     let i = touch(*s, &mut states, &mut labels);
                     states[i].is_final = true;
                 }
-                Call::Build => {}
+                Call::Build | Call::BuildUnchecked => {}
             }
         }
         states
@@ -475,6 +481,28 @@ pub fn gen_wellformed(rng: &mut Rng, thorough: bool) -> Spec {
 
 /// break a well-formed spec: what kind of defect was injected is returned
 pub fn gen_broken(rng: &mut Rng, thorough: bool) -> (Spec, &'static str) {
+    if rng.chance(1, 12) {
+        // a state without default whose labels double-count exactly as many characters as they leave uncovered:
+        // the label sizes add up to the size of the alphabet although the state is incomplete (and, with two
+        // targets, nondeterministic)
+        let l = labels(rng, 3);
+        let kmax = if rng.chance(1, 2) { 3 } else { 200 };
+        let k = 1 + rng.below(kmax) as u32;
+        let cut = k + rng.below(0x1000) as u32;
+        // [0, cut] and [cut - k + 1, MAX - k]: k characters twice, the last k characters not at all
+        let t2 = if rng.chance(1, 2) { l[1] } else { l[2] };
+        let mut calls = vec![Call::Trans(l[0], 0, cut, l[1]), Call::Trans(l[0], cut - k + 1, MAXC - k, t2), Call::Default(l[1], l[1]), Call::Default(l[2], l[1])];
+        if rng.chance(1, 2) {
+            // the gap in the middle instead of at the end
+            calls[1] = Call::Trans(l[0], cut + 1 + k, MAXC, t2);
+            calls.push(Call::Trans(l[0], cut - k + 1, cut, t2));
+        }
+        if rng.chance(1, 2) {
+            calls.push(Call::Final(l[1]));
+        }
+        rng.shuffle(&mut calls);
+        return (Spec { init: l[0], calls }, "overlap-equals-gap");
+    }
     let mut spec = gen_wellformed(rng, thorough);
     let kind = rng.below(6);
     match kind {
